@@ -284,12 +284,9 @@ Section Safe.
     intros Hraw Hv. unfold value_import. destruct (rv_is_nil v) eqn:En; [split; [discriminate | exact I]|].
     destruct v as [g|l0|m0|c].
     1-3: apply value_import_scalar_case; auto.
-    destruct (cell_raw_np n c Hv) as [Hn Hw].
-    destruct (cell_raw n c) as [m| | |] eqn:E; cbn.
-    - split; [discriminate | now apply Hw].
-    - split; [discriminate | exact Hraw].
-    - contradiction Hn; reflexivity.
-    - split; [discriminate | exact Hraw].
+    destruct c as [raw' f' typ'|sub].
+    - cbn. split; [discriminate | exact Hv].
+    - apply value_import_scalar_case; auto.
   Qed.
 
   Definition safe_pair {A} (wf : A -> Prop) (x : A * res unit) : Prop := np (snd x) /\ wf (fst x).
